@@ -55,19 +55,22 @@ def as_identifier(ident, reader=None):
     -------
     out : a hy.models.Object subtype corresponding to the parsed text.
     """
-    try:
-        return Integer(ident)
-    except ValueError:
-        pass
-    try:
-        return Float(ident)
-    except ValueError:
-        pass
-    if ident not in ("j", "J"):
+    if ident == ident.strip():
+        # (`int` etc. would ignore surrounding non-ASCII whitespace, which
+        # is an ordinary identifier character in Hy.)
         try:
-            return Complex(ident)
+            return Integer(ident)
         except ValueError:
             pass
+        try:
+            return Float(ident)
+        except ValueError:
+            pass
+        if ident not in ("j", "J"):
+            try:
+                return Complex(ident)
+            except ValueError:
+                pass
 
     if "." in ident:
         if not ident.strip("."):
